@@ -117,6 +117,11 @@ def reopenState (s : State) : State :=
   let r := s.entries.foldl (reopenStep s) ([], [], s.next, [])
   { s with entries := r.1, blobs := s.blobs.filter (fun b => b.len ≠ 0) ++ r.2.1, next := r.2.2.1 }
 
+/-- the entry one multi-namespace edit creates for one of its targets -/
+def mkEntry (rr : Bool) (node : NS → Node) (rrName : Bytes) (mode : Nat) (t : NS × Path) : Entry :=
+  { ns := t.1, path := t.2, node := node t.1, rrName := if t.1 = .iso then rrName else [],
+    mode := if t.1 = .iso ∧ rr then mode else 0 }
+
 def step (s : State) : Op → Option State
   | .addFp a =>
     let targets := optAll [a.iso.map (NS.iso, ·), a.joliet.map (NS.joliet, ·), a.udf.map (NS.udf, ·)]
@@ -124,9 +129,7 @@ def step (s : State) : Op → Option State
     else if !(targets.all fun (ns, p) => s.canAdd ns p) then none
     else
       let b := s.next
-      let es := targets.map fun (ns, p) =>
-        ({ ns := ns, path := p, node := .file b, rrName := if ns = .iso then a.rrName else [],
-           mode := if ns = .iso ∧ s.rr then a.mode else 0 } : Entry)
+      let es := targets.map (mkEntry s.rr (fun _ => .file b) a.rrName a.mode)
       some { s with entries := s.entries ++ es, blobs := s.blobs ++ [{ id := b, cid := a.cid, len := a.len }],
                     next := b + 1 }
   | .addDir iso rrName joliet udf mode =>
@@ -134,9 +137,7 @@ def step (s : State) : Op → Option State
     if targets.isEmpty then none
     else if !(targets.all fun (ns, p) => s.canAdd ns p) then none
     else
-      let es := targets.map fun (ns, p) =>
-        ({ ns := ns, path := p, node := .dir, rrName := if ns = .iso then rrName else [],
-           mode := if ns = .iso ∧ s.rr then mode else 0 } : Entry)
+      let es := targets.map (mkEntry s.rr (fun _ => .dir) rrName mode)
       some { s with entries := s.entries ++ es }
   | .rmFile ns p =>
     match s.find ns p with
@@ -181,10 +182,8 @@ def step (s : State) : Op → Option State
     if targets.isEmpty then none
     else if !(targets.all fun (ns, p) => s.canAdd ns p) then none
     else
-      let es := targets.map fun (ns, p) =>
-        ({ ns := ns, path := p,
-           node := .symlink (if ns = .udf then udfTarget else if ns = .iso then rrTarget else []),
-           rrName := if ns = .iso then rrName else [], mode := if ns = .iso ∧ s.rr then 0o120555 else 0 } : Entry)
+      let es := targets.map (mkEntry s.rr
+        (fun ns => .symlink (if ns = .udf then udfTarget else if ns = .iso then rrTarget else [])) rrName 0o120555)
       some { s with entries := s.entries ++ es }
   | .setHidden ns p h =>
     match s.find ns p with
